@@ -189,7 +189,10 @@ def check_fragment(final, exp, model_text, class_hash):
 ENTRIES = ["render_dependencies(str)", "render_dependencies(bytes)", "middleware", "render_dependencies(SafeString)"]
 
 
-def render_via(prog, classes, w, entry, rtype, gc_between, budget):
+MW_STATUS = [200, 200, 422, 404, 201, 200, 400, 200]   # HTML bodies also travel with non-2xx statuses (form errors, custom 404 pages)
+
+
+def render_via(prog, classes, w, entry, rtype, gc_between, budget, status=200):
     from django.http import HttpResponse
     from django.template import Context, Template
     from django.utils.safestring import SafeString
@@ -223,7 +226,7 @@ def render_via(prog, classes, w, entry, rtype, gc_between, budget):
             if entry == "render_dependencies(bytes)":
                 return ("ok", render_dependencies(str(html).encode(), type=rtype).decode())
             if entry == "middleware":
-                resp = HttpResponse(str(html))
+                resp = HttpResponse(str(html), status=status)
                 mw = ComponentDependencyMiddleware(get_response=lambda req: resp)
                 return ("ok", mw(None).content.decode())
             raise AssertionError(entry)
@@ -298,7 +301,8 @@ def run(ch, params, decoded=False):
                 stats["probe:cache_entries_actually_lost"] = stats.get("probe:cache_entries_actually_lost", 0) + 1
         cur_prog, exp, e = pages[step["page"]]
         w.begin_op()
-        real = render_via(cur_prog, classes, w, step["entry"], step["type"], step["gc_between"], budget)
+        real = render_via(cur_prog, classes, w, step["entry"], step["type"], step["gc_between"], budget,
+                          status=MW_STATUS[((knobs["id_seed"] >> 11) + k) % len(MW_STATUS)])
         observed.append([real[0], real[1][:2500]])
         stats["entry:" + step["entry"]] = stats.get("entry:" + step["entry"], 0) + 1
         stats["type:" + step["type"]] = stats.get("type:" + step["type"], 0) + 1
